@@ -11,7 +11,7 @@
 From Coq Require Import List Arith.
 From PM Require Import Model.Data Model.Mark Model.Tree Model.Step Spec.Tokens
   Proofs.ReplaceValid Proofs.SliceSides Proofs.TokenBasics Proofs.ReplaceTokens Proofs.SliceShape Proofs.TokenLaws
-  Proofs.StepAlgebra.
+  Proofs.StepAlgebra Proofs.TokenInj Proofs.ReplaceCanon Proofs.DocEquality.
 Import ListNotations.
 
 Theorem C16_merged_replace_step_same_tokens : forall s f1 t1 s1 st1 f2 t2 s2 st2 m doc da dab dm,
@@ -30,3 +30,17 @@ Proof.
   - intros f t sl st E. inversion E; subst. auto.
 Qed.
 Print Assumptions C16_merged_replace_step_same_tokens.
+
+(* ... and as documents: with the document and both slices in normal form, the merged step gives a document
+   EQUAL (Node.eq) to applying the two steps one after the other *)
+Theorem C16_merged_replace_step_equal_document : forall s f1 t1 s1 st1 f2 t2 s2 st2 m doc da dab dm,
+  check s doc = true -> NormalDoc s doc ->
+  OpenOK s (sl_content s1) (sl_open_start s1) (sl_open_end s1) -> canon_list s (sl_content s1) = true -> f1 <= t1 ->
+  Shape s (sl_content s2) (sl_open_start s2) (sl_open_end s2) -> canon_list s (sl_content s2) = true -> f2 <= t2 ->
+  merge s (SReplace f1 t1 s1 st1) (SReplace f2 t2 s2 st2) = Some m ->
+  apply s (SReplace f1 t1 s1 st1) doc = ROk da ->
+  apply s (SReplace f2 t2 s2 st2) da = ROk dab ->
+  apply s m doc = ROk dm ->
+  node_eqb dm dab = true.
+Proof. exact merged_replace_step_eq. Qed.
+Print Assumptions C16_merged_replace_step_equal_document.
